@@ -17,7 +17,7 @@ from vlib.store import FormatError, all_file_bytes, token_dirs  # noqa: E402
 
 WEIGHTS = {"open": 3, "close": 1, "login": 4, "logout": 1, "create": 10, "copy": 8, "destroy": 1, "set": 6, "gen": 3, "genpair": 2,
            "unwrap": 4, "derive": 3, "setpin": 2, "inittoken": 1, "restart": 1}
-UMASKS = ["0077", "0027", "0022", "0007"]
+UMASKS = ["0077", "0027", "0022", "0007", "27", "7"]      # the value is octal however it is spelled (the manual: "This value is in octal")
 CLASSES = ["data", "cert_x509", "aes", "des3", "generic", "rsa_priv", "ec_priv", "ed_priv", "dsa_priv", "dh_priv", "rsa_pub"]
 
 
